@@ -129,6 +129,7 @@ func NewPair(prog *hast.Program, scripts []string, o PairOpts, garbage *core.Ran
 		return p, err, pan
 	}
 	p.R = r
+	r.Keep = true
 	r.Install(rfuncs, rcmds)
 	return p, nil, ""
 }
@@ -377,6 +378,11 @@ func explorePaths(c *core.Ctx, what string, prog *hast.Program, scripts []string
 				break
 			}
 		}
+		if d := pair.R.Recheck(); d != "" {
+			c.Violate(what+": an element Next returned earlier changed while the dialogue went on (the host keeps what it was given): "+d, pair.Detail(pr.choices, pr.last, mon.Obs{}, d))
+			return false
+		}
+		c.FeatureN("returned-elements-rechecked-at-the-end-of-the-path", pair.R.KeptCount())
 		c.Feature("paths")
 		for k, v := range pair.M.Stats {
 			c.FeatureN(k, v)
